@@ -27,7 +27,7 @@ impl Property for C05 {
         let feats = interp::execute(case, oracles, ctx);
         ctx.nontrivial = (feats.contains("batch>=2") && (feats.contains("bookkeeping-cqe") || feats.contains("skip-cqe"))) || feats.contains("cq-wrapped") || feats.contains("overflow-flush");
         for f in &feats {
-            if !f.starts_with("k:") {
+            if true {
                 ctx.class(f);
             }
         }
